@@ -43,7 +43,7 @@ def materialise(cfg, lay, path):
     os.makedirs(os.path.join(path, "output_00000"), exist_ok=True)
     ud, ul, ut = cfg["units"]
     with open(os.path.join(d, f"info_{num}.txt"), "w") as f:
-        f.write(f"ncpu        = {cfg['ncpu']:10d}\nndim        = {cfg['ndim']:10d}\nlevelmin    = {1:10d}\nlevelmax    = {cfg['levelmax']:10d}\n")
+        f.write(f"ncpu        = {cfg['ncpu']:10d}\nndim        = {cfg['ndim']:10d}\nlevelmin    = {cfg.get('levelmin', 1):10d}\nlevelmax    = {cfg['levelmax']:10d}\n")
         f.write(f"ngridmax    = {1000:10d}\nnstep_coarse= {0:10d}\n\n")
         f.write(f"boxlen      =  {cfg['boxlen']!r}\ntime        =  0.5\naexp        =  1.0\nH0          =  1.0\n")
         f.write(f"omega_m     =  1.0\nomega_l     =  0.0\nomega_k     =  0.0\nomega_b     =  0.0\n")
